@@ -125,7 +125,7 @@ def seeded_args(prop, mod):
     if os.path.isdir(d):
         for n in sorted(os.listdir(d)):
             pth = os.path.join(d, n, 'patch.diff')
-            if os.path.exists(pth):
+            if os.path.exists(pth) and not os.path.exists(os.path.join(d, n, 'OBSOLETE')):
                 out.append((prop, mod.__name__, 'seeded/%s/%s' % (prop, n), pth))
     return out
 
